@@ -27,8 +27,14 @@ CHECKS = {
     "C04": {"level": "exploration", "technique": "seeded deterministic simulation with a recording stdout seam; per-pre-terminal expansion compared with the reference model",
             "text": "Per pre-terminal the lines actually written to the stdout seam are compared with the reference cartesian expansion (masks, adjacent alpha words, hostile values) or the reference OMEN level, and the reported count with the lines written.",
             "note": _TB + "; no schedule or fault enters this property (see DESIGN §2, fit W)"},
+    "C08": {"level": "fault_enumeration", "technique": "deterministic simulation of quit/resume histories (process restarts with only the save file surviving); quit point enumerated over every pop in the thorough tier; RefResume oracle",
+            "text": "Every cycle re-enters pcfg_guesser.main() as a new process image on the scratch disk; the quit (the property's crash point) is injected after the k-th pop for sampled multi-cycle histories (quick) and for every k of each sampled world (thorough); the history is judged against the uninterrupted run: nothing lost, order kept, nothing above the saved probability, repeats only at exactly the saved probability, uuid mismatch refused.",
+            "note": _TB + "; the keyboard thread is a stand-in here (its scheduling is C12); flags are repeated on --load (C14 covers flags-from-save)"},
+    "C15": {"level": "fault_enumeration", "technique": "deterministic simulation of quit/resume histories with the quit injected after the j-th guess of a Markov level (every j in the thorough tier), restart with only .sav/.omn surviving, cache-size knob per process",
+            "text": "Quit inside a Markov level at every position j (thorough) or sampled positions incl. first/last (quick), resume in a fresh process image with an empty memo table and an independently drawn optimizer size, followed by sampled tails (quit at a pop, inside the restored remainder, inside a later level); oracle: the restored remainder is exactly the missing strings, is never replayed later, and the rest of the run satisfies the C08 oracle.",
+            "note": _TB + "; one known finding (K1) is keyed to 'quit inside the final pre-terminal's level'"},
 }
 
 _PENDING = "check not built yet in this round (planned: DESIGN.md §6); not claimed until its evidence exists"
 NOT_APPLICABLE = {p: _PENDING for p in
-                  ["C03", "C05", "C06", "C07", "C08", "C09", "C10", "C11", "C12", "C13", "C14", "C15", "C16", "C17", "C18", "C19", "C20"]}
+                  ["C03", "C05", "C06", "C07", "C09", "C10", "C11", "C12", "C13", "C14", "C16", "C17", "C18", "C19", "C20"]}
